@@ -531,6 +531,7 @@ class Normaliser:
             c5 = self._fold_constant_ifs(fn) or c5
             c5 = self._loops_over_genexp(fn) or c5
             c5 = self._forward_adjacent_copies(fn) or c5
+            c5 = self._propagate_field_copies(fn) or c5
             c5 = self._sink_table_loops(fn, mod, cls) or c5
             for _k in range(8):
                 if not self._split_on_table_lookup(fn, mod, cls):
@@ -1605,6 +1606,40 @@ class Normaliser:
                 break
         return changed
 
+    def _propagate_field_copies(self, fn: ast.AST) -> bool:
+        """`rec__field = y` (a local made by the record replacement that merely copies another local): the
+        reads of rec__field, all in the rest of the same block, read y - provided neither name is bound
+        again before the block ends"""
+        changed = False
+        for blk in list(self._blocks(fn)):
+            i = 0
+            while i < len(blk):
+                st = blk[i]
+                i += 1
+                if not (isinstance(st, ast.Assign) and len(st.targets) == 1 and isinstance(st.targets[0], ast.Name)
+                        and '__' in st.targets[0].id and not st.targets[0].id.startswith('__')
+                        and isinstance(st.value, ast.Name)):
+                    continue
+                x, y = st.targets[0].id, st.value.id
+                if x == y:
+                    continue
+                rest = blk[i:]
+                inside = {id(n) for s2 in rest for n in ast.walk(s2)}
+                loads = [n for n in ast.walk(fn) if isinstance(n, ast.Name) and n.id == x and isinstance(n.ctx, ast.Load)]
+                if not loads or any(id(n) not in inside for n in loads):
+                    continue
+                if any(isinstance(n, ast.Name) and n.id in (x, y) and isinstance(n.ctx, (ast.Store, ast.Del))
+                       for s2 in rest for n in ast.walk(s2)):
+                    continue
+                # a loop around the block could carry a rebinding of y back to the copy: the copy is
+                # executed again on every iteration before its reads, so that is harmless
+                for n in loads:
+                    n.id = y
+                del blk[i - 1]
+                i -= 1
+                changed = True
+        return changed
+
     def _forward_adjacent_copies(self, fn: ast.AST) -> bool:
         """`t = E; x = t` where t (a name introduced by the normal form: `_yf1`, `_h2`, `_j1x`) is read
         nowhere else: `x = E`"""
@@ -2509,6 +2544,25 @@ class Normaliser:
             cache[id(callee)] = callee
             return callee
         new = clone(callee)
+        # a bare return directly inside the loop that ends the generator leaves that loop and, with it,
+        # the generator: a break
+        body_ = self._body(new)
+        if body_ and isinstance(body_[-1], (ast.While, ast.For)) and not body_[-1].orelse:
+            last = body_[-1]
+
+            def to_break(stmts: list) -> None:
+                for j, x in enumerate(stmts):
+                    if isinstance(x, ast.Return) and x.value is None:
+                        stmts[j] = ast.copy_location(ast.Break(), x)
+                    elif isinstance(x, (ast.For, ast.While, ast.FunctionDef, ast.AsyncFunctionDef, ast.ClassDef)):
+                        continue            # a return inside an inner loop is not a break of the outer one
+                    else:
+                        for f_ in ('body', 'orelse', 'finalbody'):
+                            if isinstance(getattr(x, f_, None), list):
+                                to_break(getattr(x, f_))
+                        for h in getattr(x, 'handlers', []) or []:
+                            to_break(h.body)
+            to_break(last.body)
         # `if c: return` outside every loop: the rest of the block goes under `else`
         no_ret = _without_bare_return(new.body)
         if no_ret is not None:
